@@ -264,6 +264,94 @@ Lemma w_run_inv es : forall s w, WInv s w -> WInv (fold_left (ord_step watched) 
 Proof. induction es as [|e es IH]; intros s w I; simpl; auto. apply IH, w_step_inv; auto. Qed.
 End Wait.
 
+(* ---------- what each next() future receives ---------- *)
+(* every yield went to a future that was pending at that moment and now holds the
+   outcome of the yielded input (so nothing is ever delivered to an abandoned or
+   cancelled next() future) *)
+Definition DI (ins nexts : futs) (ys : list (N * nat * nat)) : Prop :=
+  forall y, In y ys -> exists o, nth_error nexts (snd y) = Some (Some o) /\ nth_error ins (yf y) = Some (Some o).
+Definition DInv (w : wstate) : Prop := DI (w_ins w) (w_nexts w) (w_yield w).
+
+Lemma DI_set_next ins nexts ys r x :
+  nth_error nexts r = Some None -> DI ins nexts ys -> DI ins (set_nth nexts r x) ys.
+Proof.
+  intros P H y Hy. destruct (H y Hy) as [o [A B]]. exists o. split; auto.
+  rewrite nth_error_set_nth_neq; auto. intros E. subst r. assert (X := eq_trans (eq_sym P) A). discriminate X.
+Qed.
+
+Lemma DI_app_next ins nexts ys x : DI ins nexts ys -> DI ins (nexts ++ [x]) ys.
+Proof.
+  intros H y Hy. destruct (H y Hy) as [o [A B]]. exists o. split; auto.
+  rewrite nth_error_app1; auto. apply nth_error_Some. congruence.
+Qed.
+
+Lemma w_return_deliv w d r o :
+  w_running w = Some r -> nth_error (w_nexts w) r = Some None ->
+  nth_error (w_ins w) d = Some (Some o) ->
+  DInv w -> DInv (fst (w_return w d)).
+Proof.
+  intros Hr Hn Hd D. unfold w_return. rewrite Hr, Hn, Hd.
+  assert (Lr : r < length (w_nexts w)) by (apply nth_error_Some; congruence).
+  assert (D' : DI (w_ins w) (set_nth (w_nexts w) r (Some o)) (w_yield w)) by (apply DI_set_next; auto).
+  destruct (unf_find (w_unf w) d) as [k|]; unfold DInv; simpl; auto.
+  intros y Hy. apply in_app_or in Hy. destruct Hy as [Hy|[<-|[]]]; auto.
+  exists o. unfold yf; simpl. split; auto. apply nth_error_set_nth_eq; auto.
+Qed.
+
+Lemma DInv_fields w w' :
+  w_ins w' = w_ins w -> w_nexts w' = w_nexts w -> w_yield w' = w_yield w -> DInv w -> DInv w'.
+Proof. unfold DInv. intros -> -> ->. auto. Qed.
+
+Section Deliv.
+Variable args : list (N * nat).
+
+Lemma in_queue_done s w f :
+  WInv args s w -> In f (w_fin w ++ w_ready w) -> exists o, nth_error (w_ins w) f = Some (Some o).
+Proof.
+  intros I H. assert (In f (snd s)). { rewrite <- (wi_fifo _ _ _ I). apply in_or_app. auto. }
+  destruct (wi_done _ _ _ I f H0) as [D _]. rewrite <- (wi_ins _ _ _ I) in D.
+  unfold isdone in D. destruct (nth_error (w_ins w) f) as [[o|]|]; try discriminate. eauto.
+Qed.
+
+Lemma w_step_deliv s w e : WInv args s w -> DInv w -> DInv (w_step w e).
+Proof.
+  intros I D. destruct e as [i o| | | |]; simpl; auto.
+  - destruct (pending (w_ins w) i) eqn:P; auto. unfold DInv in *; simpl.
+    intros y Hy. destruct (D y Hy) as [x [A B]]. exists x. split; auto. apply done_stable; auto.
+  - destruct (w_nexts w) as [|x xs] eqn:NX; auto.
+    destruct (nth_error (x :: xs) (Init.Nat.pred (length (x :: xs)))) as [[y|]|] eqn:E; auto.
+    rewrite <- NX in *. unfold DInv in *; simpl. apply DI_set_next; auto.
+  - destruct (w_ready w) as [|f rd] eqn:R; auto. unfold w_done_cb.
+    match goal with |- context [running_active ?w0] => set (w0' := w0) end.
+    assert (D0 : DInv w0') by (unfold w0', DInv; simpl; exact D).
+    destruct (running_active w0') eqn:A.
+    + unfold running_active in A. simpl in A.
+      destruct (w_running w) as [r|] eqn:Hr; try discriminate.
+      destruct (nth_error (w_nexts w) r) as [[?|]|] eqn:Hn; try discriminate.
+      destruct (in_queue_done s w f I) as [o Ho]. { rewrite R. apply in_or_app. simpl; auto. }
+      pose proof (w_return_deliv w0' f r o eq_refl Hn Ho D0) as D1.
+      destruct (w_return w0' f) as [w1 raised]. simpl in D1.
+      destruct raised; auto.
+    + unfold DInv in *; simpl; auto.
+  - unfold w_next. destruct (w_fin w) as [|f rest] eqn:Fin.
+    + unfold DInv in *; simpl. apply DI_app_next; auto.
+    + match goal with |- context [w_return ?w1 f] => set (w1' := w1) end.
+      assert (D0 : DInv w1') by (unfold w1', DInv; simpl; apply DI_app_next; exact D).
+      destruct (in_queue_done s w f I) as [o Ho]. { rewrite Fin. simpl; auto. }
+      assert (Hn : nth_error (w_nexts w1') (length (w_nexts w)) = Some None).
+      { unfold w1'; simpl. rewrite nth_error_app2 by lia. rewrite Nat.sub_diag. reflexivity. }
+      pose proof (w_return_deliv w1' f (length (w_nexts w)) o eq_refl Hn Ho D0) as D1.
+      destruct (w_return w1' f) as [w2 raised]. simpl in D1.
+      destruct raised; auto.
+Qed.
+
+Lemma w_run_deliv es : forall s w, WInv args s w -> DInv w -> DInv (w_run w es).
+Proof.
+  induction es as [|e es IH]; intros s w I D; simpl; auto.
+  apply (IH (ord_step (wait_keys args) s e)). apply w_step_inv; auto. apply w_step_deliv with s; auto.
+Qed.
+End Deliv.
+
 (* ---------- creation ---------- *)
 Lemma w_register_eq todo : forall w,
   running_active w = false ->
@@ -398,6 +486,19 @@ Proof.
   apply H in Y. destruct Y as [Y1 Y2]. apply Y2, All. apply wait_keys_In; auto.
 Qed.
 End WaitMain.
+
+Lemma wait_delivered ins args es :
+  let w := w_run (w_create ins args) es in
+  forall y, In y (w_yield w) ->
+  exists o, nth_error (w_nexts w) (snd y) = Some (Some o) /\ nth_error (final_ins ins es) (yf y) = Some (Some o).
+Proof.
+  simpl. intros y Hy.
+  pose proof (w_run_deliv args es _ _ (w_create_inv ins args)) as D.
+  assert (D0 : DInv (w_create ins args)).
+  { unfold w_create. rewrite w_register_eq by reflexivity. unfold DInv; simpl. intros ? []. }
+  destruct (D D0 y Hy) as [o [A B]]. exists o. split; auto.
+  destruct (wait_correct ins args es) as [_ [_ [_ [_ [_ [_ [_ E]]]]]]]. simpl in E. rewrite <- E. auto.
+Qed.
 
 (* the former defect witness, WaitIterator(a, a): yielded once, with the index the
    dict holds (1), done() true, no KeyError *)
